@@ -31,6 +31,7 @@ PROPS["C07"] = {
             "pkg": "primitives/x25519", "configs": ALL4,
             "tests": {
                 "TestC07ScalarMult": T(2000, 100000),
+                "FuzzC07ScalarMult": FUZZ(60, configs=["default"]), "FuzzC07EdPublicAny": FUZZ(60, configs=["default"]),
                 "TestC07SpecialList": LIST(),
                 "TestC07Base": T(500, 20000),
                 "TestC07Lengths": LIST(),
